@@ -1,4 +1,4 @@
-import TrucModel.Model.CloneSerde
+import TrucModel.Proofs.CloneSerdeProps
 /-
   C15 — Serialising then deserialising a record gives an equal record.
   Model of the generated `Serialize` / `Deserialize` (visitor) at the level of field values; the
@@ -7,21 +7,6 @@ import TrucModel.Model.CloneSerde
 -/
 namespace Truc.Frag
 open Truc.Gen Truc.Mach
-
-theorem readElems_roundtrip (dr : String → Bool) : ∀ (ds : List D) (vals acc : List Val) (k : Nat),
-    vals.length = ds.length → readElems dr k ds (serialize vals) acc = .ok (acc ++ vals) := by
-  intro ds
-  induction ds with
-  | nil => intro vals acc k h; simp at h; subst h; simp [readElems, serialize]
-  | cons d ds ih =>
-    intro vals acc k h
-    cases vals with
-    | nil => simp at h
-    | cons v vs =>
-      simp only [serialize, List.map_cons, readElems]
-      have := ih vs (acc ++ [v]) (k + 1) (by simpa using h)
-      simp only [serialize] at this
-      rw [this]; simp
 
 /-- round trip, for both kinds of format (with and without a length hint), any number of fields
     (including none) -/
@@ -32,23 +17,6 @@ theorem C15_roundtrip (dr : String → Bool) (ds : List D) (vals : List Val) (h 
   simp only [hl, bne_self_eq_false, Bool.and_false, Bool.false_eq_true, if_false]
   rw [readElems_roundtrip dr ds vals [] 0 h]
   simp
-
-theorem readElems_short (dr : String → Bool) : ∀ (ds : List D) (vals acc : List Val) (k : Nat),
-    vals.length < ds.length →
-    readElems dr k ds (serialize vals) acc = .err (.missingField (k + vals.length)) ((acc ++ vals).filter fun x => dr x.ty) := by
-  intro ds
-  induction ds with
-  | nil => intro vals acc k h; simp at h
-  | cons d ds ih =>
-    intro vals acc k h
-    cases vals with
-    | nil => simp [serialize, readElems]
-    | cons v vs =>
-      simp only [serialize, List.map_cons, readElems]
-      have := ih vs (acc ++ [v]) (k + 1) (by simpa using h)
-      simp only [serialize] at this
-      rw [this]
-      simp [Nat.add_comm, Nat.add_left_comm]
 
 /-- too few elements: rejected (`invalid_length` when the format announces the length, else
     `missing_field` at the first absent one) and exactly the already decoded values are dropped -/
